@@ -39,7 +39,8 @@ def build_mesh(v):
     from dataclasses import replace
     kind = v['kind']
     kw = {'sort_t': False} if kind == 'tri' else {}
-    m = U.make(kind, v['p'], v['t'], **kw)
+    unit = 2.0 ** int(v.get('pow2', 0))              # the whole geometry in another length unit (exact scaling)
+    m = U.make(kind, np.asarray(v['p'], dtype=np.float64) * unit, v['t'], **kw)
     if v.get('refine'):
         m = m.refined(int(v['refine']))
     if v.get('second'):
@@ -49,7 +50,7 @@ def build_mesh(v):
             nv = int(np.max(m.t[:NV[kind]])) + 1
             for i in range(nv, P.shape[1]):                  # dyadic displacement of the non-vertex nodes
                 for c in range(P.shape[0]):
-                    P[c, i] += (((i * (c + 2) + int(v['curve'])) % 5) - 2) / 128.0
+                    P[c, i] += unit * (((i * (c + 2) + int(v['curve'])) % 5) - 2) / 128.0
             m = replace(m, doflocs=P)
     return m
 
@@ -75,11 +76,13 @@ def fxa(a):
     return [fxa(x) for x in a]
 
 
-def mesh_tables(mesh, kind, with_facets):
-    sc = find_scale(mesh.p, 8)
+def mesh_tables(mesh, kind, with_facets, back=1.0):
+    """`back` = 2^-pow2 brings the coordinates back to the unit in which they are small integers (exact)."""
+    P0 = np.asarray(mesh.p, dtype=np.float64) * back
+    sc = find_scale(P0, 8)
     if sc is None:
         raise MachineryError('generated coordinates are not dyadic')
-    p = [[int(x) for x in col] for col in np.rint(np.asarray(mesh.p) * sc).T]
+    p = [[int(x) for x in col] for col in np.rint(P0 * sc).T]
     out = {'scale': int(sc), 'p': p, 'cells': ids(mesh.t[:NV[kind]])}
     rd = mesh.elem.refdom
     if with_facets:
@@ -103,7 +106,8 @@ def geom_event(v):
         d = DIM[kind]
         rd = mesh.elem.refdom
         brd = rd.brefdom if kind not in ('line', 'wedge') else None
-        tabs, sc = mesh_tables(mesh, kind, brd is not None)
+        back = 2.0 ** (-int(v.get('pow2', 0)))      # lengths are logged in the unit of the integer coordinates
+        tabs, sc = mesh_tables(mesh, kind, brd is not None, back)
         ev.update(tabs)
         ev['refv'] = [[int(x) for x in col] for col in np.asarray(rd.p).T]
         nt = mesh.t.shape[1]
@@ -111,14 +115,15 @@ def geom_event(v):
         X = np.array(XREF[kind], dtype=np.float64).T / D
         h = 1.0 / D
         F = mp.F(X)
-        DF = mp.DF(X)
-        iDF = mp.invDF(X)
-        det = mp.detDF(X)
         Y = mp.invF(F, tind=allc)
-        Z = mp.F(Y, tind=allc)
-        Fp = [mp.F(X + h * np.eye(d)[:, [j]]) for j in range(d)]
-        Fm = [mp.F(X - h * np.eye(d)[:, [j]]) for j in range(d)]
-        FV = mp.F(np.asarray(rd.p, dtype=np.float64))
+        Z = mp.F(Y, tind=allc) * back
+        F = F * back
+        DF = mp.DF(X) * back
+        iDF = mp.invDF(X) / back
+        det = mp.detDF(X) * back ** d
+        Fp = [mp.F(X + h * np.eye(d)[:, [j]]) * back for j in range(d)]
+        Fm = [mp.F(X - h * np.eye(d)[:, [j]]) * back for j in range(d)]
+        FV = mp.F(np.asarray(rd.p, dtype=np.float64)) * back
         detI = exact_ints(det[:, 0] * sc ** d) if mapname == 'affine' else None
         C = []
         for k in range(nt):
@@ -139,13 +144,14 @@ def geom_event(v):
             nf = mesh.facets.shape[1]
             allf = np.arange(nf, dtype=np.int64)
             G = mp.G(Xf)
-            dG = mp.detDG(Xf)
-            Gp = [mp.G(Xf + h * np.eye(df)[:, [j]]) for j in range(df)]
-            Gm = [mp.G(Xf - h * np.eye(df)[:, [j]]) for j in range(df)]
-            GV = mp.G(np.asarray(brd.p, dtype=np.float64))
+            dG = mp.detDG(Xf) * back ** df
+            Gp = [mp.G(Xf + h * np.eye(df)[:, [j]]) * back for j in range(df)]
+            Gm = [mp.G(Xf - h * np.eye(df)[:, [j]]) * back for j in range(df)]
+            GV = mp.G(np.asarray(brd.p, dtype=np.float64)) * back
             owner = np.asarray(mesh.f2t[0], dtype=np.int64)
             Yf = mp.invF(G, tind=owner)                              # facet_basis.py:94-107
-            ZG = mp.F(Yf, tind=owner)
+            ZG = mp.F(Yf, tind=owner) * back
+            G = G * back
             nrm = mp.normals(Yf, owner, allf, mesh.t2f)
             Fa = []
             for f in range(nf):
@@ -176,7 +182,8 @@ def div_event(v):
         from skfem import Basis, FacetBasis, Functional
         from skfem.helpers import dot
         mesh = build_mesh(v)
-        tabs, sc = mesh_tables(mesh, kind, True)
+        back = 2.0 ** (-int(v.get('pow2', 0)))
+        tabs, sc = mesh_tables(mesh, kind, True, back)
         ev.update(tabs)
         e = mesh.elem()
         order = 6 if v.get('second') else 4
@@ -184,8 +191,8 @@ def div_event(v):
         cb = Basis(mesh, e, intorder=order)
         xn = Functional(lambda w: dot(w.x, w.n)).elemental(fb)
         vol = Functional(lambda w: 1.0 + 0.0 * w.x[0]).elemental(cb)
-        ev['xn'] = fx_list(xn)
-        ev['vol'] = fx_list(vol)
+        ev['xn'] = fx_list(np.asarray(xn) * back ** DIM[kind])
+        ev['vol'] = fx_list(np.asarray(vol) * back ** DIM[kind])
     _, err = guarded(call, 60)
     if err:
         ev['err'] = err
@@ -193,11 +200,28 @@ def div_event(v):
 
 
 # ------------------------------------------------------------------------------------------------ pair laws
+FACET_FNS = ('G', 'detDG', 'normals')
+
+
 def _call(mp, fn, X, idx, mesh):
+    """fn restricted to the cells (facets) idx; X are the reference points of cells (facets)."""
     if fn in ('F', 'DF', 'invDF', 'detDF'):
         return getattr(mp, fn)(X, tind=idx)
     if fn in ('G', 'detDG'):
         return getattr(mp, fn)(X, find=idx)
+    if fn == 'invF':
+        # the physical points come from the full evaluation; only invF sees the index set
+        xall = mp.F(X)
+        x = xall if idx is None else np.take(xall, idx, axis=1)
+        return mp.invF(x, tind=idx)
+    if fn == 'normals':
+        # as facet_basis.py:94-107 does for the facets idx, from their first neighbour
+        nf = mesh.facets.shape[1]
+        find = np.arange(nf, dtype=np.int64) if idx is None else idx
+        owner = np.asarray(mesh.f2t[0], dtype=np.int64)
+        Yall = mp.invF(mp.G(X), tind=owner)
+        tind = owner[find]
+        return mp.normals(np.take(Yall, find, axis=1), tind, find, mesh.t2f)
     raise ValueError(fn)
 
 
@@ -250,11 +274,11 @@ def pair_events(v):
         for step in v['steps']:
             fn = step['fn']
             ix = idx_array(step['idx'])
-            Xs = X if fn not in ('G', 'detDG') else np.array(XFACET[d - 1], dtype=np.float64).T / D
+            Xs = X if fn not in FACET_FNS else np.array(XFACET[d - 1], dtype=np.float64).T / D
             ax = ent_axis(fn)
-            note = f"{mapname}:{step['idx']['dtype']}{step['idx']['ix']}" if step['idx'] else f'{mapname}:None'
+            note = f"{mapname}:{step['idx']['dtype']}{step['idx']['ix']}"[:60] if step['idx'] else f'{mapname}:None'
             if ix is None:      # None = all
-                n_all = nf if fn in ('G', 'detDG') else nt
+                n_all = nf if fn in FACET_FNS else nt
                 out.append(pair_event(law, fn, note, lambda fn=fn, Xs=Xs: _call(mp, fn, Xs, None, mesh),
                                       lambda fn=fn, Xs=Xs, n_all=n_all: _call(mp, fn, Xs, np.arange(n_all, dtype=np.int64), mesh)))
             else:
@@ -299,6 +323,14 @@ def pair_events(v):
             out.append(pair_event(law, 'normals', 'facets',
                                   lambda: ma.normals(ma.invF(ma.G(Xf), tind=owner), owner, allf, mesh.t2f),
                                   lambda: mi.normals(mi.invF(mi.G(Xf), tind=owner), owner, allf, mesh.t2f)))
+        # ... and for index sets (any order, repetitions, full length)
+        for step in v.get('steps', []):
+            fn = step['fn']
+            ix = idx_array(step['idx'])
+            Xs = X if fn not in FACET_FNS else np.array(XFACET[d - 1], dtype=np.float64).T / D
+            note = f"{step['idx']['dtype']}{step['idx']['ix']}"[:60]
+            out.append(pair_event(law, fn, note, lambda fn=fn, Xs=Xs, ix=ix: _call(ma, fn, Xs, ix, mesh),
+                                  lambda fn=fn, Xs=Xs, ix=ix: _call(mi, fn, Xs, ix, mesh)))
     return out
 
 
@@ -339,7 +371,8 @@ def scenario(sid, rec):
     v = rec['v']
     return {'id': sid, 'recipe': rec,
             'tags': {'kind': v['kind'], 'family': rec['family'], 'driver': rec['driver'], 'mapping': v['mapping'],
-                     'second': int(v.get('second', 0)), 'curve': int(v.get('curve', 0)), 'law': v.get('law', '')},
+                     'second': int(v.get('second', 0)), 'curve': int(v.get('curve', 0)), 'law': v.get('law', ''),
+                     'pow2': int(v.get('pow2', 0))},
             'events': execute(rec)}
 
 
@@ -358,6 +391,9 @@ def perturb_numbering(kind, p, t, rng, flip):
             if rng.random() < 0.5:
                 t2[:, c] = t2[ORIENT_REV[kind], c]
     return p2, t2
+
+
+SCALED_FAMILIES = ('U2q-jiggled', 'U3h-jiggled', 'U2q-trapezoid', 'U2t-jiggled', 'U3t', 'U2q', 'U1')
 
 
 def base_meshes(tier, rng):
@@ -396,8 +432,48 @@ def base_meshes(tier, rng):
     ps[0] += ps[2]
     ps[1] += ps[0]
     out.append(('hex', 'U3h-sheared', ps, t))
+    # trilinear hexahedra: the vertices of the common face pulled out of their lattice positions
+    p, t = U.hex_grid(2, 1, 1)
+    pj = p * 4
+    for v_, off in ((1, (1, 1, 0)), (4, (-1, 1, 1)), (7, (1, 0, -1)), (10, (0, -1, 1))):
+        pj[:, v_] += off
+    out.append(('hex', 'U3h-jiggled', pj, t))
+    # trapezoidal quadrilaterals (no cell is a parallelogram)
+    out.append(('quad', 'U2q-trapezoid', np.array([[0, 8, 10, -2, 4, 9, 4, -1, 4], [0, 1, 8, 6, 0, 4, 7, 3, 4]]),
+                np.array([[0, 4, 8, 7], [4, 1, 5, 8], [8, 5, 2, 6], [7, 8, 6, 3]]).T))
+    out.append(('line', 'U1', *U.line_points([0, 1, 2, 4, 5, 8])))
     p2, t2 = U.tri_lattice(1, 1, (0,))
     out.append(('wedge', 'UW', *U.wedge_extrude(p2, t2, 2)))
+    return out
+
+
+def idx(ix, dtype='int64'):
+    return {'ix': [int(i) for i in ix], 'dtype': dtype}
+
+
+def index_sets(n, rng, full_only=False):
+    """Index arrays over range(n): any order, repetitions, proper subsets, and in particular arrays of FULL length
+    that are not arange(n) (ends in place and interior permuted, interior repeated, rotations, random permutations)."""
+    out = []
+    if not full_only:
+        # the cache-key pair: int32 [1,0] followed by int64 [1] (same bytes), then None, reversed, repeated
+        out += [idx([1, 0], 'int32'), idx([1], 'int64'), None, idx(list(range(n))[::-1]), idx([n - 1, 0, n - 1]),
+                idx([0], 'int32'), idx([0, 0, 0, 0], 'int32'), idx([0, 0], 'int64')]
+        if n >= 3:
+            sub = rng.permutation(n)[:max(2, n // 2)]
+            out.append(idx(sub, 'int32'))
+        out.append(idx(rng.integers(0, n, size=2 * n)))                       # longer than n, with repeats
+    if n >= 3:
+        inner = list(range(1, n - 1))
+        if n >= 4:
+            sw = list(range(n))
+            sw[1], sw[2] = sw[2], sw[1]
+            out.append(idx(sw, 'int32'))                                       # [0, 2, 1, 3, .., n-1]
+            out.append(idx([0] + [int(i) for i in rng.permutation(inner)] + [n - 1]))   # ends fixed, interior shuffled
+        out.append(idx([0] + [int(i) for i in rng.choice(inner, size=n - 2)] + [n - 1], 'int32'))  # interior repeated
+        out.append(idx(sorted(int(i) for i in rng.integers(0, n, size=n))))    # full length, sorted, with repeats
+        out.append(idx(rng.permutation(n), 'int32'))                           # random permutation
+        out.append(idx(list(range(1, n)) + [0]))                               # rotation
     return out
 
 
@@ -425,18 +501,24 @@ def generate(tier, seed):
             recs.append({'driver': 'geom', 'family': fam + '-second', 'v': vrec(kind, p, t, 'default', second=1)})
             for cv in (((1, 2, 3) if big else (1,)) if fam in ('U2t', 'U2q', 'U3t', 'U3h') else ()):
                 recs.append({'driver': 'geom', 'family': fam + '-curved', 'v': vrec(kind, p, t, 'default', second=1, curve=cv)})
+        # the same geometry in other length units (exact scaling by powers of two; every logged length is scaled back
+        # exactly, reference coordinates are dimensionless): the non-affine families, one affine and one lattice family
+        if fam in SCALED_FAMILIES:
+            for k in ((-30, -20, -10, 12) if (big or fam in SCALED_FAMILIES[:2]) else (-30,)):
+                recs.append({'driver': 'geom', 'family': fam + '-scaled', 'v': vrec(kind, p, t, 'default', pow2=k)})
+                if kind in SECOND:
+                    recs.append({'driver': 'geom', 'family': fam + '-second-scaled',
+                                 'v': vrec(kind, p, t, 'default', second=1, pow2=k)})
+                if kind in P1:
+                    recs.append({'driver': 'geom', 'family': fam + '-scaled', 'v': vrec(kind, p, t, 'iso', pow2=k)})
         # argument-shape laws: call sequences on one mapping object
         nt = t.shape[1]
-        fns = ['F', 'DF', 'invDF', 'detDF']
-        ffns = ['G', 'detDG'] if kind not in ('line', 'wedge') else []
-
-        def idx(ix, dtype='int64'):
-            return {'ix': [int(i) for i in ix], 'dtype': dtype}
+        fns = ['F', 'DF', 'invDF', 'detDF', 'invF']
+        ffns = ['G', 'detDG', 'normals'] if kind not in ('line', 'wedge') else []
+        nfac = len(U.make(kind, p, t, **({'sort_t': False} if kind == 'tri' else {})).facets.T) if ffns else 0
         for mpn in ['default'] + (['iso'] if kind in P1 else []):
             seqs = []
-            # the cache-key pair: int32 [1,0] followed by int64 [1] (same bytes), then None, reversed, repeated
-            base = [idx([1, 0], 'int32'), idx([1], 'int64'), None, idx(list(range(nt))[::-1]), idx([nt - 1, 0, nt - 1]),
-                    idx([0], 'int32'), idx([0, 0, 0, 0], 'int32'), idx([0, 0], 'int64')]
+            base = index_sets(nt, rng)
             for fn in fns:
                 seqs.append([{'fn': fn, 'idx': i} for i in base])
             mixed = []
@@ -444,15 +526,20 @@ def generate(tier, seed):
                 for fn in ('detDF', 'invDF', 'DF'):
                     mixed.append({'fn': fn, 'idx': i})
             seqs.append(mixed)
+            fbase = index_sets(nfac, rng) if ffns else []
             for fn in ffns:
-                seqs.append([{'fn': fn, 'idx': i} for i in (idx([1, 0], 'int32'), idx([1], 'int64'), None, idx([2, 0, 2]))])
+                seqs.append([{'fn': fn, 'idx': i} for i in fbase])
             for steps in seqs:
                 recs.append({'driver': 'pair', 'family': fam,
                              'v': vrec(kind, p, t, mpn, law='SubsetCommutes', steps=steps)})
             steps = [{'fn': fn, 'idx': i} for fn in fns + ['invF'] for i in (idx(list(range(nt))), idx([nt - 1, 0]), None)]
             recs.append({'driver': 'pair', 'family': fam, 'v': vrec(kind, p, t, mpn, law='SharedVsPerCell', steps=steps)})
         if kind in P1:
-            recs.append({'driver': 'pair', 'family': fam, 'v': vrec(kind, p, t, 'default', law='AffineEqualsIsoparametric')})
+            steps = [{'fn': fn, 'idx': i} for fn in fns for i in index_sets(nt, rng, full_only=True)]
+            if kind != 'line':
+                steps += [{'fn': fn, 'idx': i} for fn in ffns for i in index_sets(nfac, rng, full_only=True)]
+            recs.append({'driver': 'pair', 'family': fam,
+                         'v': vrec(kind, p, t, 'default', law='AffineEqualsIsoparametric', steps=steps)})
             p2, t2 = perturb_numbering(kind, p, t, rng, flip=True)
             recs.append({'driver': 'pair', 'family': fam + '-mirrored',
                          'v': vrec(kind, p2, t2, 'default', law='AffineEqualsIsoparametric')})
